@@ -1490,6 +1490,9 @@ class Engine:
             return z3.BoolVal(len(v.t) != 0)
         if isinstance(v.ty, TNoneT):
             return z3.BoolVal(False)
+        if v.ty is TObj:
+            # an opaque object: None is falsy, anything else is as truthy as an uninterpreted predicate says
+            return z3.And(v.t != TObj.lit(None), z3.Function("spec:truthy", TObj.sort(), z3.BoolSort())(v.t))
         if isinstance(v.ty, TOpt):
             inner = Val(v.ty.elem, v.ty.val(v.t))
             if isinstance(v.ty.elem, (TOpaque, TRec)):
